@@ -63,7 +63,7 @@ CLAIMED = {
    ref='§5 C06, §0', technique='Lean 4 proof over the encoder model + strict specification decoder as oracle',
    note=TB + ' Five defects fixed (string-table aliasing, WBXML 1.0 charset field, anonymous public id, base64 white space, namespace scope shared with C05).'),
  'C07': dict(
-   text='Option-independence theorems over the conversion models (Props/C07.lean): charset_irrelevant, version_only_changes_header, anonymous_only_changes_publicid, enc_opts_same_events (same white-space class and same effective string-table switch: equal event lists for every language and tree), enc_opts_same_meaning (any two option tuples with the same white-space setting, all 29 languages incl. typed content compared by value, under the four recorded finding hypotheses), strtbl_irrelevant_tree_partial, strtbl_off_fails_on_literal (witness: only literal names need the table), gen_modes_same_markup_partial / indent_adds_only_whitespace (now through embedded documents), canonical_and_compact_read_back_same_partial and indent_read_back_same_up_to_blank_text_partial (Expat as the stated assumption ReadsBack). Tie: correspondence + oracle: all 32 encoder tuples decode to one document (within each keep-ws class; embedded documents compared as documents), compact / indent / canonical XML read back as the same tree with identical CDATA payloads, UTF-16 / ISO-8859-1 transcodings give byte-identical WBXML; search stage over the whole corpus when the correspondence breaks.',
+   text='Option-independence theorems over the conversion models (Props/C07.lean): charset_irrelevant, version_only_changes_header, anonymous_only_changes_publicid, enc_opts_same_events (same white-space class and same effective string-table switch: equal event lists for every language and tree), enc_opts_same_meaning (any two option tuples with the same white-space setting, all 29 languages incl. typed content compared by value, under the four recorded finding hypotheses), strtbl_irrelevant_tree_partial, strtbl_off_fails_on_literal (witness: only literal names need the table), gen_modes_same_markup_partial / indent_adds_only_whitespace (now through embedded documents), canonical_and_compact_read_back_same_partial and indent_read_back_same_up_to_blank_text_partial (Expat as the stated assumption ReadsBack). Tie: correspondence + oracle: all 32 encoder tuples decode to one document (within each keep-ws class; embedded documents compared as documents), compact / indent / canonical XML read back as the same tree with identical CDATA payloads, UTF-16 / ISO-8859-1 transcodings give byte-identical WBXML; search stage over the whole corpus when the correspondence breaks. A refusal that only the disabled string table causes must be explained by the document (a name outside the tables, or a value-only attribute whose value no start value begins): computed from the dumped tables.',
    ref='§5 C07, §0', technique='Lean 4 proof + cross-product differential run',
    note=TB + ' Transcoding equality and the read-back theorems additionally rest on Expat (parameter). _partial marks: CDATA / embedded documents across different string-table switches, canonical vs compact without keep-ws (differs by design), scope of ReadsBack.'),
  'C10': dict(
